@@ -105,6 +105,13 @@ Proof.
   rewrite Z.div_add_l by lia. lia.
 Qed.
 
+(* the decoder's normal form of a float64 encodes as the float itself *)
+Lemma enc_float_norm b : enc_float (norm_f64 b) = enc_float b.
+Proof.
+  unfold norm_f64. destruct (is_nan64 b) eqn:En; [|reflexivity].
+  unfold enc_float. rewrite En. reflexivity.
+Qed.
+
 (* "the same value" encodes to the same bytes *)
 Theorem rel_enc kb : forall g d b, rel g d -> enc kb g = Acc b -> enc kb d = Acc b.
 Proof.
@@ -120,6 +127,7 @@ Proof.
       pose proof (forall_perm _ _ _ HP (forall_pairs _ l H)) as Hlp;
       rewrite (enc_plist_rel kb lp Hlp (pairs l') kvs' HF E') end.
     cbn [bind]. eapply enc_map_order_independent; [exact Pk|exact He].
+  - (* floats *) cbn [enc] in *. rewrite enc_float_norm. exact He.
 Qed.
 
 (* C09: the encoder output is a canonical form.  Decoding it and encoding the decoded value again gives the same
